@@ -7,7 +7,7 @@ package handshake
 //vx:stub github.com/refraction-networking/uquic/internal/handshake.newHeaderProtector = vxNoHP
 //vx:param all maxdepth=3000
 //vx:param quick steps=5
-//vx:param thorough steps=6
+//vx:param thorough steps=7
 //vx:reach Harness_C05_keyupdate C05.ku.opened C05.ku.local-update C05.ku.peer-update-accepted C05.ku.too-quick C05.ku.old-phase-opened C05.ku.keys-dropped C05.ku.wrong-key-rejected C05.ku.acked
 
 import (
